@@ -44,19 +44,46 @@ inline long long enc(vf::Tracked<P, F> const& t)
 }
 inline long long enc(PairII const& p) { return p.first * 16 + p.second; }
 
-// payload of type T carrying value code v (0..2)
+// payload of type T carrying value code v (0..2); arg(v) is what is handed to emplace / in_place constructors
 template <typename T>
 struct Make {
     static T of(int v) { return T(v); }
+    static int arg(int v) { return v; }
+    static T from_enc(long long e) { return T((int)e); }
 };
 template <>
 struct Make<char> {
-    static char of(int v) { return (char)('a' + v); }
+    static char of(int v) { return (char)v; }
+    static int arg(int v) { return v; }
+    static char from_enc(long long e) { return (char)(e - 1000); }
 };
 template <>
 struct Make<PairII> {
     static PairII of(int v) { return PairII{v, (v * 2) % 3}; }
+    static PairII arg(int v) { return of(v); }
+    static PairII from_enc(long long e) { return PairII{(int)(e / 16), (int)(e % 16)}; }
 };
+
+// small integer naming a payload type in visitor logs
+template <typename T>
+constexpr int tid()
+{
+    if constexpr (std::is_same_v<T, int>) {
+        return 0;
+    } else if constexpr (std::is_same_v<T, char>) {
+        return 1;
+    } else if constexpr (std::is_same_v<T, PairII>) {
+        return 2;
+    } else if constexpr (std::is_same_v<T, TCM>) {
+        return 3;
+    } else if constexpr (std::is_same_v<T, TCM2>) {
+        return 4;
+    } else if constexpr (std::is_same_v<T, TMO>) {
+        return 5;
+    } else {
+        return 9;
+    }
+}
 
 // ---------------------------------------------------------------- observation trace
 struct Obs {
